@@ -330,6 +330,40 @@ def opobj(**kw):
     return o
 
 
+def opobj_raw(pairs):
+    """operation object with member names given literally (wrong case, duplicates of another case)"""
+    o = Node('o')
+    for k, v in pairs:
+        if isinstance(v, bytes):
+            v = Node.string(v)
+        v = v.clone() if v.parent is not None or v.key is not None else v
+        v.key = k
+        v.parent = o
+        o.kids.append(v)
+    return o
+
+
+def add_decoys(rng, patch):
+    """member names are case sensitive and unknown members are ignored (RFC 6902, section 4): members
+    spelled OP / Path / FROM / Value in front of the real ones must change nothing"""
+    for op in patch.kids:
+        if op.kind == 'o' and rng.random() < 0.15:
+            have = {k.key for k in op.kids}
+            decoys = []
+            for name in rng.sample([b'OP', b'Op', b'PATH', b'Path', b'FROM', b'From', b'VALUE', b'Value'], rng.randrange(1, 4)):
+                if name not in have:
+                    d = rng.choice([Node.string(b'remove'), Node.string(b'/'), Node.string(b''), Node.string(b'/0'), Node.string(b'bogus'), Node('z'), Node.num(1.0), Node('a')])
+                    d = d.clone()
+                    d.key = name
+                    d.parent = op
+                    decoys.append(d)
+            if rng.random() < 0.7:
+                op.kids[0:0] = decoys
+            else:
+                op.kids += decoys
+    return patch
+
+
 def random_value(rng):
     return gen_doc(rng, depth=2, maxdepth=3)
 
@@ -451,6 +485,18 @@ def faulty_op(rng, doc):
         lambda: opobj(op=b'copy', frm=p + b'/nope-missing', path=b'/zz'),
         lambda: opobj(op=b'move', frm=p + b'/nope-missing', path=b'/zz'),
         lambda: opobj(op=b'add', path=b'/nope-missing/deeper/x', value=v),
+        # member names in the wrong case are not the members the RFC names
+        lambda: opobj_raw([(b'OP', b'add'), (b'path', p + b'/new'), (b'value', v)]),
+        lambda: opobj_raw([(b'Op', b'remove'), (b'path', p)]),
+        lambda: opobj_raw([(b'op', b'add'), (b'PATH', b''), (b'value', v)]),
+        lambda: opobj_raw([(b'op', b'add'), (b'Path', p), (b'value', v)]),
+        lambda: opobj_raw([(b'op', b'add'), (b'path', b''), (b'VALUE', v)]),
+        lambda: opobj_raw([(b'op', b'replace'), (b'path', p), (b'Value', v)]),
+        lambda: opobj_raw([(b'op', b'test'), (b'path', p), (b'VALUE', n.clone())]),
+        lambda: opobj_raw([(b'op', b'copy'), (b'FROM', p), (b'path', b'')]),
+        lambda: opobj_raw([(b'op', b'move'), (b'From', p), (b'path', b'')]),
+        lambda: opobj_raw([(b'OP', b'test'), (b'op', b'bogus'), (b'path', p), (b'value', n.clone())]),
+        lambda: opobj_raw([(b'PATH', p), (b'op', b'test'), (b'path', p + b'/nope-missing'), (b'value', n.clone())]),
     ]
     if arrs:
         a = rng.choice(arrs)
@@ -519,7 +565,7 @@ def case_c16(rng, cid):
     if r < 0.55:
         work = doc.clone()
         rfc.set_parent(work)
-        patch = gen_valid_ops(rng, work, rng.choice([1, 1, 2, 3, 5]))
+        patch = add_decoys(rng, gen_valid_ops(rng, work, rng.choice([1, 1, 2, 3, 5])))
         cls = 'valid-sequence'
     elif r < 0.85:
         work = doc.clone()
